@@ -129,6 +129,7 @@ class World(object):
         self.loads = 0
         self.compiling = {}       # out path -> set of cc actor names writing it
         self.cc_failed_for = set()
+        self.cc_outputs = {}      # cc actor -> output path while it is writing
         self.pending_kills = [dict(k) for k in cfg.get("kills", [])]
         self.label_counts = {}
         self._ev_pos = 0
@@ -159,11 +160,15 @@ class World(object):
         me = s.current() if s else None
         if me is None:
             return
-        writers = self.compiling.get(os.path.abspath(path))
+        writers = self.compiling.get(os.path.basename(path))
         if writers and any(w != me.name and self._owner_name(w) != me.name for w in writers):
+            # somebody else's compiler is between creating and completing a
+            # library of this name (wherever it writes it) during this lookup
             self.probe("lookup_during_foreign_compile")
-        if result and path.endswith(".so") and not writers:
-            self.probe("cache_hit_on_complete_file")
+            if result:
+                self.probe("lookup_hit_during_foreign_compile")
+        if result and path.endswith(".so"):
+            self.probe("cache_hit")
         s.yield_point("os:exists", [self.canon(path), bool(result)])
 
     def _owner_name(self, actor_name):
@@ -257,11 +262,20 @@ class World(object):
             if stat.S_ISREG(st.st_mode) or stat.S_ISLNK(st.st_mode):
                 os.unlink(out)          # what GNU ld does to an ordinary output
                 s.yield_point("cc:unlink_out")
-        fd = os.open(out, os.O_WRONLY | os.O_CREAT | os.O_TRUNC, 0o755)
         try:
-            writers = self.compiling.setdefault(out, set())
+            fd = os.open(out, os.O_WRONLY | os.O_CREAT | os.O_TRUNC, 0o755)
+        except OSError as exc:
+            # the real linker: "cannot open output file ...: No such file or directory"
+            self.probe("compiler_could_not_create_output")
+            s.yield_point("cc:exit", 1)
+            return 1, ("/usr/bin/ld: cannot open output file %s: %s" % (out, exc.strerror)).encode()
+        try:
+            writers = self.compiling.setdefault(os.path.basename(out), set())
             if writers:
-                self.probe("two_compilers_same_output")
+                self.probe("two_compilers_same_library")
+            if any(p2 == out for p2 in self.cc_outputs.values()):
+                self.probe("two_compilers_same_output_path")
+            self.cc_outputs[a.name] = out
             writers.add(a.name)
             if owner is not None:
                 owner.data["phase"] = "cc_created"
@@ -286,7 +300,8 @@ class World(object):
                 return self._cc_fail(a, fd, out, fail, owner)
         finally:
             os.close(fd)
-            self.compiling.get(out, set()).discard(a.name)
+            self.compiling.get(os.path.basename(out), set()).discard(a.name)
+            self.cc_outputs.pop(a.name, None)
         s.yield_point("cc:exit", 0)
         return 0, b""
 
@@ -314,7 +329,7 @@ class World(object):
         if me is None:
             return ctypes.CDLL(path, *a, **kw)
         self.loads += 1
-        writers = self.compiling.get(os.path.abspath(path))
+        writers = self.compiling.get(os.path.basename(path))
         if writers:
             self.probe("load_during_foreign_compile")
         exp = G["golden"].get(tuple(me.data.get("req", ())))
@@ -485,6 +500,9 @@ def run_one(cfg, decisions=None, keep_events=False):
             if a.state != "done":
                 world.violation("I4", a.name, "no progress: still %s after %d steps "
                                 "(stop reason %s)" % (a.state, sched.step, sched.stop_reason))
+                continue
+            if a.exc is not None and a.exc[0] == "HarnessError":
+                harness_error = a.exc[1]
                 continue
             if a.exc is not None:
                 exempt = (a.name in world.cc_failed_for and a.exc[0] == "RuntimeError"
@@ -756,9 +774,9 @@ CHUNK = 16
 CHUNK_TIMEOUT = 300
 MINIMISE_BUDGET = 15
 EXPECTED_PROBES = [
-    "lookup_during_foreign_compile", "load_during_foreign_compile", "two_compilers_same_output",
+    "lookup_during_foreign_compile", "load_during_foreign_compile", "two_compilers_same_library",
     "kill_before_output", "kill_after_partial", "kill_after_full_output", "kill_after_source_unlink",
-    "orphan_compiler_running", "compiler_failed_with_partial_output", "cache_hit_on_complete_file",
+    "orphan_compiler_running", "compiler_failed_with_partial_output", "cache_hit",
     "own_compile_failure_reported",
 ]
 
